@@ -45,14 +45,12 @@ func computeReservedNamesForScope(scope *js_ast.Scope, symbols ast.SymbolMap, na
 		}
 	}
 
-	// If there's a direct "eval" somewhere inside the current scope, continue
-	// traversing down the scope tree until we find it to get all reserved names
-	if scope.ContainsDirectEval {
-		for _, child := range scope.Children {
-			if child.ContainsDirectEval {
-				computeReservedNamesForScope(child, symbols, names)
-			}
-		}
+	// Continue traversing down the scope tree to get all reserved names. Symbols
+	// in nested scopes must not be renamed if there's a direct "eval" somewhere
+	// inside the scope or if they could be referenced from inside a "with"
+	// statement. Other symbols must not be given one of those names.
+	for _, child := range scope.Children {
+		computeReservedNamesForScope(child, symbols, names)
 	}
 }
 
